@@ -16,6 +16,7 @@ using namespace Fastor;
 #ifndef CFGNAME
 #define CFGNAME "sse2"
 #endif
+static bool g_verbose = false;   // set by replay translation units
 #ifndef QR_CREC
 #define QR_CREC 4.0L
 #endif
